@@ -32,14 +32,23 @@ def iflatten(iterable):
     if not isinstance(iterable, (list, tuple)):
         yield iterable
         return
-    remainder = iter(iterable)
-    while True:
+    # depth first, left to right, without recursion; the lists being walked are remembered so that a
+    # list that contains itself ends in an error instead of being walked for ever
+    stack = [(iter(iterable), id(iterable))]
+    active = set([id(iterable)])
+    while stack:
+        remainder, ident = stack[-1]
         try:
             first = next(remainder)
         except StopIteration:
-            return
+            stack.pop()
+            active.discard(ident)
+            continue
         if isinstance(first, (list, tuple)):
-            remainder = itertools.chain(first, remainder)
+            if id(first) in active:
+                raise error.REF  # circular: the value contains itself
+            active.add(id(first))
+            stack.append((iter(first), id(first)))
         else:
             yield first
 
